@@ -276,16 +276,38 @@ func c19Control(c *Ctx) {
 		for _, sp := range []struct{ field, rate string }{{"qosEgress", "DownloadBPS"}, {"qosIngress", "UploadBPS"}} {
 			found := false
 			for _, call := range flow.Calls(f) {
-				if !flow.CalleeIs(call, "cilium/ebpf", "Map", "Put") {
-					continue
-				}
-				rv, ok := call.Common().Args[0].(*ssa.UnOp)
-				if !ok || !strings.HasSuffix(flow.FieldOwner(rv.X), "Manager."+sp.field) {
+				// the write: a direct Put on the field, or a same-package helper that is handed the field's map
+				var tbArg ssa.Value
+				if flow.CalleeIs(call, "cilium/ebpf", "Map", "Put") {
+					rv, ok := call.Common().Args[0].(*ssa.UnOp)
+					if !ok || !strings.HasSuffix(flow.FieldOwner(rv.X), "Manager."+sp.field) {
+						continue
+					}
+					if mi, ok := call.Common().Args[2].(*ssa.MakeInterface); ok {
+						tbArg = mi.X
+					}
+				} else if g := call.Common().StaticCallee(); g != nil && g.Pkg == f.Pkg {
+					hasMap := false
+					for _, a := range call.Common().Args {
+						if u, ok := a.(*ssa.UnOp); ok && strings.HasSuffix(flow.FieldOwner(u.X), "Manager."+sp.field) {
+							hasMap = true
+						}
+						if n := namedOfPtr(a.Type()); n != nil && n.Obj().Name() == "TokenBucket" {
+							tbArg = a
+						}
+					}
+					if !hasMap {
+						continue
+					}
+				} else {
 					continue
 				}
 				found = true
 				var extra []string
 				for _, ft := range flow.FactsAt(call.Block()) {
+					if isErrTest(ft) {
+						continue // error handling of an earlier step
+					}
 					d := factText(ft)
 					if strings.Contains(d, "Manager.qosEgress") || strings.Contains(d, "Manager.qosIngress") || strings.Contains(d, "SubscriberQoS.IP") ||
 						strings.Contains(d, "To4()") || strings.Contains(d, "Put()") {
@@ -296,10 +318,7 @@ func c19Control(c *Ctx) {
 				r.Check("C19.control", load.ShortFunc(f), "Put on "+sp.field+" guarded only by map!=nil / argument validation", c.P.Pos(call.Pos()), len(extra) == 0,
 					"the bucket is written only when "+strings.Join(extra, " and ")+": a policy the control plane was given is not the one enforced")
 				// the value: a TokenBucket whose RateBPS is the right direction's rate
-				var tb ssa.Value
-				if mi, ok := call.Common().Args[2].(*ssa.MakeInterface); ok {
-					tb = mi.X
-				}
+				tb := tbArg
 				fields := map[string]ssa.Value{}
 				if tb != nil {
 					for _, ref := range *tb.Referrers() {
@@ -335,8 +354,8 @@ func c19Control(c *Ctx) {
 				}
 				r.Check("C19.control", load.ShortFunc(f), sp.field+" priority is the policy's", c.P.Pos(call.Pos()), okP, "priority not taken from SubscriberQoS.Priority")
 			}
-			r.Check("C19.control", load.ShortFunc(f), "writes "+sp.field, c.P.Pos(f.Pos()), found, "no Put on m."+sp.field)
 			okS, badPos := successNeedsMapCall(c, f, sp.field, "Put", "Update")
+			r.Check("C19.control", load.ShortFunc(f), "writes "+sp.field, c.P.Pos(f.Pos()), found || okS, "no Put on m."+sp.field+" (directly or through a helper that always makes it)")
 			r.Check("C19.control", load.ShortFunc(f), "every successful return has written "+sp.field, badPos, okS,
 				"SetSubscriberQoS can return nil without writing the "+sp.field+" bucket although the map is loaded: the caller believes the policy is in force, the kernel still enforces the old one (or none)")
 		}
@@ -350,6 +369,9 @@ func c19Control(c *Ctx) {
 						found = true
 						var extra []string
 						for _, ft := range flow.FactsAt(call.Block()) {
+							if isErrTest(ft) {
+								continue
+							}
 							d := factText(ft)
 							if strings.Contains(d, "Manager.qos") || strings.Contains(d, "To4()") {
 								continue
